@@ -1,4 +1,5 @@
 import QuickAdd.Lemmas.Search
+import QuickAdd.Lemmas.SearchWork
 /-!
 # C13 — timeout honoured: clean partial results, prefix property
 
@@ -10,6 +11,8 @@ or one expansion of one production.
 * `deadline_prefix`: whatever is produced under a deadline is a prefix of what is produced without one;
 * `deadline_clean`: a deadline never introduces an exception;
 * `deadline_first_check`: if the first check already fails nothing is produced;
+* `work_between_checks`: one main-loop iteration (= the work between two deadline checks) performs at most |applicable rules| · |production|
+  rule applications and scorings, and |applicable rules| ≤ |registry| — a bound that does not depend on the number of candidate sequences;
 * `deadline_same_stack`: the deadline influences nothing but where the stream stops (same initial stack, hence same subject).
 `timeout = 0` is "no deadline" by definition of the oracle (`Opts.deadline = none`); that the real closure treats 0 so, and
 compares `perf_counter() - start > timeout`, is runtime behaviour explored with a virtual clock over every expiry point.
@@ -59,5 +62,41 @@ theorem deadline_first_check (sc : Scorer S) (ts : Ts) (o : Opts) (txt : List Na
 theorem deadline_same_stack (sc : Scorer S) (o : Opts) (txt : List Nat) (fuel : Nat) (d d' : Option Nat) :
     initialStack sc ({ o with deadline := d }).depth ({ o with deadline := d }).relMatchLenNum ({ o with deadline := d }).relMatchLenDen txt fuel =
     initialStack sc ({ o with deadline := d' }).depth ({ o with deadline := d' }).relMatchLenNum ({ o with deadline := d' }).relMatchLenDen txt fuel := rfl
+
+/-- **bounded work between two deadline checks**: the successors computed in one iteration (each costs one rule application
+    and one scoring) number at most |applicable rules| · |production| ≤ |registry| · |production|, whatever the number of
+    candidate sequences -/
+theorem work_between_checks (ts : Ts) (seq prod : List Art) (trace : List String) (out : List (List Art × List String × Nat))
+    (h : expandArts ts (filterRules seq) prod trace = .ok out) : out.length ≤ Gen.ruleSigs.length * prod.length := by
+  have h1 := expand_count_le ts (filterRules seq) prod trace out h
+  have h2 := filterRules_le seq
+  calc out.length ≤ (filterRules seq).length * prod.length := h1
+    _ ≤ Gen.ruleSigs.length * prod.length := Nat.mul_le_mul_right _ h2
+
+/-- a rule application never lengthens a production (a window of ≥ 1 elements is replaced by one value) -/
+theorem successor_not_longer (ts : Ts) (name : String) (pat : List Gen.Pred) (prod : List Art) (trace : List String) (i : Nat)
+    (s : List Art × List String × Nat) (hi : i ∈ matchRule prod pat) (h : applyAt ts name pat prod trace i = .ok (some s)) : s.1.length ≤ prod.length := by
+  unfold applyAt at h
+  cases hr : applyRule name ts ((prod.drop i).take pat.length) with
+  | error e => simp [hr, bind, Except.bind] at h
+  | ok r =>
+    cases r with
+    | none => simp [hr, bind, Except.bind, pure, Except.pure] at h
+    | some x =>
+      simp only [hr, bind, Except.bind, pure, Except.pure] at h
+      simp at h; subst h
+      unfold matchRule at hi
+      split at hi
+      · simp at hi
+      · rename_i hne
+        simp only [List.mem_filter, List.mem_range, Bool.and_eq_true, beq_iff_eq] at hi
+        have hlen := hi.2.1
+        simp only [List.length_take, List.length_drop] at hlen
+        have hp : 0 < pat.length := by
+          cases pat with
+          | nil => simp at hne
+          | cons _ _ => simp
+        simp only [List.length_append, List.length_take, List.length_cons, List.length_drop]
+        omega
 
 end QuickAdd.C13
